@@ -18,7 +18,7 @@ RULE = ('Complete enumeration of every cell name of GSC180, NANGATE, NANGATE_ZN,
         'implementation circuit and compared per output pin with a hand-written datasheet table. non-trivial: cell has a datasheet function '
         'with >= 2 inputs; distinct = distinct (library, cell). Part lookup: all 20 ordered pairs of libraries swept through pin_index / pin_is_output in '
         'one process (first, second, first again) against the declaration order of the own expansion; non-trivial: the two libraries share '
-        'a cell name with other pins or another pin order.')
+        'a cell name with other pins or another pin order. Before the first cell is judged, each worker also looked pins up by position and by unknown names (directly and through netlists with positional connections), errors ignored.')
 ASSUMPTIONS = ['datasheet functions in vk/datasheet.py are written from the vendor naming conventions (Nangate A/B1/B2, SAED A1../IN1.., GSC A0/B0)',
                'implementation circuits are evaluated with kyupy LogicSim(m=2) (decided separately by C01)']
 
@@ -98,6 +98,28 @@ def other_work():
                     if n.kind not in ('input', 'output') and len(n.ins) >= 1 and n.ins[0] is not None:
                         n.ins[0].remove()
                 Node(mine, 'scribble', 'inv')
+    # ... and it looked pins up by position or by names the cells do not have, directly and through netlists with positional connections
+    # (whether such a request is answered or refused is not judged here; the library cells afterwards are)
+    import kyupy.techlib as tl
+    from kyupy import verilog
+    for lib in sorted(lib_sources()):
+        tlib = getattr(tl, lib)
+        for j, name in enumerate(sorted(tlib.cells)):
+            for pin in (0, 1, 2, 'NOSUCHPIN', ''):
+                for fn in (tlib.pin_index, tlib.pin_is_output):
+                    try:
+                        fn(name, pin)
+                    except Exception:  # noqa
+                        pass
+            npins = len(tlib.cells[name][1])
+            if j % 25 == 0 and npins >= 2:
+                nets = [f'w{i}' for i in range(npins)]
+                text = f'module t ({", ".join(nets)}); input {", ".join(nets[:-1])}; output {nets[-1]}; ' + \
+                       f'{name} u0 ({", ".join(nets)}); endmodule'
+                try:
+                    verilog.parse(text, tlib=tlib)
+                except Exception:  # noqa
+                    pass
 
 
 def prop(case):
